@@ -843,7 +843,9 @@ func c18HTMLOracles(c *core.Ctx, in string) []string {
 }
 
 func c18HTML(c *core.Ctx) {
+	long := strings.Repeat("x", 70*1024) // one token longer than 64 KiB: sanitising must not fail on it
 	directed := []string{
+		"<p>" + long + "</p>", `<img src="data:image/png;base64,` + long + `">`, `<p style="color:red;` + long + `">x</p>`, "<!-- " + long + " -->", `<p title="` + long,
 		`<a href="javascript:alert(1)">x</a>`, `<a href=" jav&#x09;ascript:alert(1)">x</a>`, `<p style="color:red;position:fixed" onclick=x>hi</p>`,
 		`<svg><script>alert(1)</script></svg>`, `<style>p{}</style><p style=color:RED>`, `<img src=x onerror=alert(1) style="width:1px;behavior:url(x)">`,
 		`<div style="background-color: &quot;x&quot;">`, `<a x"y=1 style=color:red>`, `<math><mi xlink:href="javascript:x">`, `<p style="color:red" style="position:fixed">`,
